@@ -194,10 +194,8 @@ Proof. exact secp256k1_reduced_hash. Qed.
 (* ---- regression: the two inputs on which the code before commits de8ed07 / 28216b2 failed ------------- *)
 (* toy curve y^2 = x^3 + 3 over Z_7, G = (1,2), n = 13.  d = 2, z = 11, first nonce 12 = n - 1 gives s = 0: the retry
    used to reach k = 13 (infinity, TypeError); it now wraps to k = 1 and signs *)
-Example C01_regression_sign_wraps :
-  toy_sign_with_k toy13 5 2 11 12 = Ret (1, 0 + 1 * 13 mod 13 + (11 + 1 * 2) mod 13 + 0, 0) \/
-  exists sig, toy_sign_with_k toy13 5 2 11 12 = Ret sig.
-Proof. right. vm_compute. eexists. reflexivity. Qed.
+Example C01_regression_sign_wraps : toy_sign_with_k toy13 5 2 11 12 = Ret (6, 5, 1).
+Proof. vm_compute. reflexivity. Qed.
 
 (* r = 8 >= p = 7 used to yield two keys that did not verify; now nothing is returned *)
 Example C01_regression_recover_r_above_p : toy_recover toy13 1 8 1 None = Ret [].
